@@ -153,6 +153,9 @@ int main(int argc, char** argv) {
         // including left associativity at precedence 0: "everything else is as for the generated lexer"
         static constexpr char minus_pat[] = "-"; static constexpr char mul_pat[] = "\\*";
         static constexpr regex_term<minus_pat> rx_minus(1, associativity::ltor); static constexpr regex_term<mul_pat> rx_mul(2, associativity::ltor);
+        static constexpr regex_term<minus_pat> ra_minus(associativity::ltor); static constexpr regex_term<mul_pat> ra_mul(associativity::rtol);   // associativity only (precedence 0)
+        static const parser pna(expr, terms('2', ra_minus, ra_mul), nterms(expr), rules(expr('2') >= leaf,
+            expr(expr, ra_minus, expr) >= [](S&& a, auto&&, S&& b) { return "(" + a + "-" + b + ")"; }, expr(expr, ra_mul, expr) >= [](S&& a, auto&&, S&& b) { return "(" + a + "*" + b + ")"; }));
         static const parser pn(expr, terms('2', rx_minus, rx_mul), nterms(expr), rules(expr('2') >= leaf,
             expr(expr, rx_minus, expr) >= [](S&& a, auto&&, S&& b) { return "(" + a + "-" + b + ")"; }, expr(expr, rx_mul, expr) >= [](S&& a, auto&&, S&& b) { return "(" + a + "*" + b + ")"; }));
         static const custom_term c_two("2", [](auto) { return S("2"); });
@@ -181,8 +184,8 @@ int main(int argc, char** argv) {
                     return lhs; };
                 out = parse(-1, false); return ok && pos == t.size(); };
             struct V { const char* name; int pm; bool rm; int px; bool rx; std::optional<S> got; };
-            std::ostringstream e1, e2, e3, e4, e5;
-            V vs[] = {{"nameless regex terms (1, ltor) / (2, ltor)", 1, false, 2, false, pn.parse(string_buffer(S(in)), e1)},
+            std::ostringstream e1, e2, e3, e4, e5, e6;
+            V vs[] = {{"nameless regex terms (ltor) / (rtol), associativity-only constructor", 0, false, 0, true, pna.parse(string_buffer(S(in)), e6)},{"nameless regex terms (1, ltor) / (2, ltor)", 1, false, 2, false, pn.parse(string_buffer(S(in)), e1)},
                       {"custom terms (0, ltor) / (0, rtol)", 0, false, 0, true, pa.parse(string_buffer(S(in)), e2)}, {"char terms (0, ltor) / (0, rtol)", 0, false, 0, true, ga.parse(string_buffer(S(in)), e3)},
                       {"custom terms (1, ltor) / (2, rtol)", 1, false, 2, true, pb.parse(string_buffer(S(in)), e4)}, {"char terms (1, ltor) / (2, rtol)", 1, false, 2, true, gb.parse(string_buffer(S(in)), e5)}};
             for (V& v : vs) {
